@@ -182,9 +182,41 @@ func c07Conc(c *mon.Case, sp c07Spec) {
 	if !c.AwaitOrViolate("surveyor/concurrent-recv-stuck", "receivers with 30ms deadline returning", wd.Done, mon.AwaitOpts{MaxTimer: 30 * time.Millisecond}) || !okS {
 		return
 	}
+	// every survey of every context was broadcast: one more survey, sent alone, is the sentinel
+	// behind which (per-connection FIFO) everything queued before is on the wire.  At most 3*14
+	// surveys per connection: there was queue space (128) for each of them.
+	hx.SetYields(0, nil)
+	if err := rig.Ctxs[0].Send(rig.ReqBody(0, sp.NOps+1)); err != nil {
+		c.Violate("surveyor/send-error", "ctx 0 Send of the final survey returned %v", err)
+		return
+	}
+	if !c.AwaitOrViolate("surveyor/survey-not-broadcast", "the final survey (sent alone) appearing on every connection", func() bool {
+		return len(rig.TxsOf(0, sp.NOps+1)) >= sp.NPipes
+	}, mon.AwaitOpts{}) {
+		return
+	}
 	rig.Scan()
 	for _, b := range rig.Bad {
 		c.Violate("surveyor/malformed-transmission", "%s", b)
+	}
+	perConn := map[[3]int]int{}
+	for _, t := range rig.Txs {
+		perConn[[3]int{t.Ctx, t.K, t.PipeN}]++
+	}
+	for i := 0; i < sp.NCtx; i++ {
+		for k := 1; k <= sp.NOps; k++ {
+			for n := 0; n < sp.NPipes; n++ {
+				switch cnt := perConn[[3]int{i, k, n}]; {
+				case cnt == 0:
+					c.Violate("surveyor/survey-not-broadcast:concurrent-sends", "survey ctx=%d k=%d never reached pipe %d, which was connected throughout and has the later, final survey on its wire (%d contexts sending concurrently)", i, k, n, sp.NCtx)
+					return
+				case cnt > 1:
+					c.Violate("surveyor/survey-sent-twice-on-one-connection:concurrent-sends", "survey ctx=%d k=%d was transmitted %d times on pipe %d (%d contexts sending concurrently)", i, k, cnt, n, sp.NCtx)
+					return
+				}
+				c.Count("concurrent_broadcast_pairs_checked", 1)
+			}
+		}
 	}
 	seenSerial := map[int]int{}
 	overl, ndel := 0, 0
